@@ -252,6 +252,50 @@ def check_sim(case):
     return None
 
 
+def check_reexport(case):
+    """exporting leaves the Sim as it was: unnamed analyses stay unnamed, so exporting again (after adding more, or with
+    an analysis object shared between Sims) still gives every unnamed analysis its own generated name"""
+    import hdl21.sim as hs
+    from hdl21.sim import data as d
+    kind = case[1]
+    w = {"case": repr(case)}
+
+    def names_of(inp):
+        out = []
+        for a in inp.an:
+            sub = getattr(a, a.WhichOneof("an"))
+            out.append(sub.analysis_name)
+        return out
+    tb = mk_tb("TbRe")
+    shared = d.Op()
+    tr = d.Tran(tstop=1e-9)
+    if kind == "export-add-export":
+        s = d.Sim(tb=tb, attrs=[shared, tr, d.Op(name="mine")])
+        first = names_of(hs.to_proto(s))
+        s.add(d.Op())
+        s.add(d.Ac(sweep=d.LogSweep(1, 10, 2)))
+        second = names_of(hs.to_proto(s))
+        third = names_of(hs.to_proto(s))
+        for label, ns in (("first", first), ("second", second), ("third", third)):
+            if len(set(ns)) != len(ns):
+                return ("reexport.duplicate-names", f"{label} export has analysis names {ns}", w)
+        if second != third or second[:3] != first:
+            return ("reexport.names-change", f"names {first} then {second} then {third}", w)
+        if shared.name is not None or tr.name is not None:
+            return ("reexport.sim-modified", f"exporting named the designer's analysis objects: {shared.name!r}, {tr.name!r}", w)
+    else:
+        s1 = d.Sim(tb=tb, attrs=[shared, d.Op()])
+        s2 = d.Sim(tb=tb, attrs=[d.Op(), shared, tr])
+        outs = hs.to_proto([s1, s2]) if kind == "shared-in-list" else [hs.to_proto(s1), hs.to_proto(s2)]
+        for k, inp in enumerate(outs):
+            ns = names_of(inp)
+            if len(set(ns)) != len(ns):
+                return ("reexport.duplicate-names", f"sim {k} (sharing an unnamed analysis with another Sim) has names {ns}", w)
+        if shared.name is not None:
+            return ("reexport.sim-modified", f"exporting named the shared analysis object {shared.name!r}", w)
+    return None
+
+
 def check_reject(case):
     import hdl21 as h
     import hdl21.sim as hs
@@ -326,6 +370,11 @@ def run(ctx):
                     check_reject, rule="testbenches without exactly one scalar port are rejected, also when the extra "
                                        "ports only appear through elaboration (bundle ports)", bound="8 programs",
                     key_of=repr)
+    ctx.run_bounded("re-export", [("reexport", k) for k in ("export-add-export", "shared-in-list", "shared-separately")],
+                    check_reexport, rule="export, add unnamed analyses, export twice more; one unnamed analysis object "
+                                         "shared by two Sims exported in one list / one by one: generated names distinct "
+                                         "per SimInput, stable, and the designer's objects left unnamed",
+                    bound="3 programs", key_of=repr)
     return INFO
 
 
@@ -334,6 +383,6 @@ def replay(payload):
     if not c:
         return 2
     case = eval(c)
-    r = check_reject(case) if case[0] == "reject" else check_sim(case)
+    r = check_reject(case) if case[0] == "reject" else check_reexport(case) if case[0] == "reexport" else check_sim(case)
     print("replay:", r)
     return 1 if r else 0
